@@ -8,7 +8,7 @@
    4. the specification of C04 in full ([C04_holds]) and the witnesses that refute it outside that
       class. *)
 From PM Require Import Lib.Bytes Lib.BytesFacts Lib.PyStr Lib.PyStrFacts Http.Url Http.Chunk Http.Parser
-  Http.ChunkFacts Http.ParserFacts Http.Builders Net.Conversation.
+  Http.ChunkFacts Http.ParserFacts Http.Builders Net.Conversation Net.ConversationCases.
 From Coq Require Import ZArith Lia.
 
 Notation AL := DEFAULT_ALLOWED_URL_SCHEMES (only parsing).
@@ -198,13 +198,14 @@ Qed.
    the rest of the segment [l] is left in the buffer *)
 Lemma pending_split p m r seg rest X : no_upgrade m -> Pending p m r -> seg ++ rest = r ++ X ->
   (exists p' r', parse p seg = Ok p' /\ Pending p' m r' /\ rest = r' ++ X /\ r = seg ++ r') \/
-  (exists l, parse p seg = Ok (expected m l) /\ X = l ++ rest).
+  (exists l, parse p seg = Ok (expected m l) /\ X = l ++ rest /\ seg = r ++ l).
 Proof.
   intros NU Pd E. apply app_eq_app in E. destruct E as (l & [(E1 & E2)|(E1 & E2)]).
-  - right. exists l. subst seg. destruct Pd as (_ & _ & _ & _ & W). split; [apply W|exact E2].
+  - right. exists l. subst seg. destruct Pd as (_ & _ & _ & _ & W). split; [apply W|]. split; [exact E2|reflexivity].
   - destruct l as [|y l'].
     + right. exists []. rewrite app_nil_r in E1. subst r. destruct Pd as (_ & _ & _ & _ & W).
-      pose proof (W []) as W0. rewrite app_nil_r in W0. split; [exact W0|]. cbn. symmetry. exact E2.
+      pose proof (W []) as W0. rewrite app_nil_r in W0. split; [exact W0|]. split; [cbn; symmetry; exact E2|].
+      rewrite app_nil_r. reflexivity.
     + left. subst r. destruct (Pending_short p m seg (y :: l') NU Pd) as (p' & Ea & Pd'); [discriminate|].
       exists p', (y :: l'). split; [exact Ea|]. split; [exact Pd'|]. split; [exact E2|reflexivity].
 Qed.
@@ -399,6 +400,145 @@ Qed.
 Definition fwd_bytes (c : cfg) (m : message) : result bytes := snd (rebuild_for_upstream c false (rq0 m)).
 Definition fwd (c : cfg) (m : message) : bytes := match fwd_bytes c m with Ok x => x | Err _ => [] end.
 
+(* the route a request names: what HttpWebServerPlugin._try_route finds for its path *)
+Definition route_of (c : cfg) (p : parser) : result (option nat) :=
+  try_route c (if truthy (path p) then or_empty (path p) else [SLASH]).
+
+(* schedules of the theorem: non-empty client segments, non-empty data from connection 0 — but
+   not before the client has sent [need] more bytes (an origin cannot speak on a connection that
+   has not been opened) —, flushes; nobody closes *)
+Fixpoint sched_ok (need : nat) (evs : list event) : Prop :=
+  match evs with
+  | [] => True
+  | EClient seg :: t => seg <> [] /\ sched_ok (need - length seg) t
+  | EUp k raw :: t => need = O /\ k = O /\ raw <> [] /\ sched_ok need t
+  | EFlush :: t => sched_ok need t
+  | _ :: _ => False
+  end.
+
+(* what connection 0 emits, piece by piece *)
+Fixpoint ups (evs : list event) : list bytes :=
+  match evs with
+  | [] => []
+  | EUp O raw :: t => raw :: ups t
+  | _ :: t => ups t
+  end.
+
+
+(* ======================================================================================
+   4. the property in full
+   ====================================================================================== *)
+
+(* what ReverseProxy.handle_request does with a request on a fresh connection: the upstream it
+   connects to and the bytes it sends there (None: no route matches / it raises) *)
+Definition reverse_names (c : cfg) (rplugins : list (list (bytes * list bytes))) (p : parser)
+  : option (bytes * Z * bytes) :=
+  match reverse_handle_request c rplugins (init []) p with
+  | (s, Ok _) =>
+      match conns s with
+      | [u] => match up_queued u with [b] => Some (up_host u, up_port u, b) | _ => None end
+      | _ => None
+      end
+  | _ => None
+  end.
+
+(* what a request NAMES: an origin (with the bytes that origin is to receive) or a local route *)
+Inductive target := TOrigin (h : bytes) (pt : Z) (sent : bytes) | TLocal (j : nat) | TNone.
+
+Definition names (c : cfg) (m : message) : target :=
+  let p := rq0 m in
+  match http_handler_protocol p with
+  | HTTP_PROXY =>
+      if has_proxy c then
+        match origin_of p, fwd_bytes c m with Some (h, pt), Ok b => TOrigin h pt b | _, _ => TNone end
+      else TNone
+  | WEB_SERVER =>
+      if has_web c then
+        match route_of c p with
+        | Ok (Some j) =>
+            match nth_error (web_plugins c) j with
+            | Some (WLocal _) => TLocal j
+            | Some (WReverse rp) =>
+                match reverse_names c rp p with Some (h, pt, b) => TOrigin h pt b | None => TNone end
+            | None => TNone
+            end
+        | _ => TNone
+        end
+      else TNone
+  | UNKNOWN_PROTO => TNone
+  end.
+
+(* the world: the origin (h, pt) answers the request bytes b with [answers h pt b] *)
+Definition world := bytes -> Z -> bytes -> bytes.
+
+(* the response the client must get for request m *)
+Definition expected_answer (c : cfg) (answers : world) (m : message) : bytes :=
+  match names c m with
+  | TOrigin h pt b => answers h pt b
+  | TLocal j => match nth_error (web_plugins c) j with
+                | Some (WLocal respond) => concat (respond (rq0 m))
+                | _ => []
+                end
+  | TNone => []
+  end.
+
+(* conversations the property speaks about: keep-alive requests of one kind (all through the
+   forward proxy or all to the web server), each well-formed and naming something *)
+Definition wf_request (c : cfg) (m : message) : Prop :=
+  message_ok AL m /\ is_req m /\ no_upgrade m /\
+  is_http_1_1_keep_alive (rq0 m) = true /\ is_https_tunnel (rq0 m) = false /\ names c m <> TNone.
+
+Definition wf_conversation (c : cfg) (reqs : list message) : Prop :=
+  match reqs with
+  | [] => False
+  | m1 :: _ => Forall (wf_request c) reqs /\
+               Forall (fun m => http_handler_protocol (rq0 m) = http_handler_protocol (rq0 m1)) reqs
+  end.
+
+(* schedules: nobody closes, nothing is empty, and a socket is only readable once it exists *)
+Fixpoint quiet (c : cfg) (s : hstate) (evs : list event) : Prop :=
+  match evs with
+  | [] => True
+  | ev :: t =>
+      match ev with
+      | EClient seg => seg <> []
+      | EUp k raw => raw <> [] /\ (k < length (conns s))%nat
+      | EFlush => True
+      | EClientEof | EUpEof _ => False
+      end /\ quiet c (step c s ev) t
+  end.
+
+(* at the end nothing waits to be written to the upstream in use *)
+Definition settled (s : hstate) : Prop :=
+  forall k u, registered s k = true -> nth_error (conns s) k = Some u -> up_nsent u = length (up_queued u).
+
+(* every origin connection has, by the end, emitted exactly one answer per request it received *)
+Definition origins_answer (answers : world) (evs : list event) (s : hstate) : Prop :=
+  forall k u, nth_error (conns s) k = Some u ->
+    up_bytes k evs = concat (map (answers (up_host u) (up_port u)) (firstn (up_nsent u) (up_queued u))).
+
+(* C04 for one conversation: for every world, every packing of the request bytes into segments
+   and every interleaving with what the origins emit, the client receives exactly one response per
+   request, in request order, each the answer of what that request names, and the connection is
+   still open and idle *)
+Definition C04_holds (c : cfg) (reqs : list message) : Prop :=
+  forall (answers : world) ds evs,
+    quiet c (init ds) evs -> client_bytes evs = concat (map render reqs) ->
+    let s := run c (init ds) evs in
+    settled s -> origins_answer answers evs s ->
+    stat s = Alive /\ pending_request s = false /\
+    client_stream s = concat (map (expected_answer c answers) reqs).
+
+Definition C04_statement : Prop := forall c reqs, wf_conversation c reqs -> C04_holds c reqs.
+
+(* ---- the proved class is an instance of it ---- *)
+Lemma concat_ups evs : concat (ups evs) = up_bytes O evs.
+Proof.
+  induction evs as [|ev t IH]; [reflexivity|]. destruct ev as [seg| |k raw|k|]; cbn [ups up_bytes]; try exact IH.
+  destruct k; cbn [Nat.eqb concat]; [rewrite IH; reflexivity|exact IH].
+Qed.
+
+
 (* ======================================================================================
    3b. the forward proxy
    ====================================================================================== *)
@@ -592,7 +732,8 @@ Section Forward.
   Proof. pose proof class_all as F. inversion F as [|? ? (_ & _ & _ & _ & _ & H) _]. exact H. Qed.
 
   Lemma phaseA_client s seg rest need : PhaseA s (seg ++ rest) need -> seg <> [] ->
-    PhaseA (step c s (EClient seg)) rest (need - length seg) \/ PhaseB (step c s (EClient seg)) rest [].
+    PhaseA (step c s (EClient seg)) rest (need - length seg) \/
+    (PhaseB (step c s (EClient seg)) rest [] /\ (need - length seg = 0)%nat).
   Proof.
     intros (p & r & ds & -> & Pd & St & Hn) Hs.
     pose proof class_all as F. inversion F as [|? ? (Hm & Hq & Hu & Htn & Ho & (x & Hx)) Ft]; subst.
@@ -600,13 +741,14 @@ Section Forward.
     unfold handle_data, handle_data_try. cbn [request].
     assert (NCp : is_complete p = false) by (apply not_complete_false; destruct Pd as (_ & _ & H & _); exact H).
     rewrite NCp. cbn [negb]. unfold parse_first_request. cbn [request].
-    destruct (pending_split p m1 r seg rest _ Hu Pd St) as [(p' & r' & Ea & Pd' & Er & Err)|(l & Ea & Er)].
+    destruct (pending_split p m1 r seg rest _ Hu Pd St) as [(p' & r' & Ea & Pd' & Er & Err)|(l & Ea & Er & Esl)].
     - (* the first request is still incomplete *)
       rewrite Ea. pose proof Pd' as (_ & _ & NC' & _). rewrite (not_complete_false p' NC'). cbn [negb].
       hn. left. exists p', r', ds. split; [reflexivity|]. split; [exact Pd'|]. split; [exact Er|].
       rewrite Err, app_length. lia.
     - (* it completes inside this segment; l follows it *)
-      right. rewrite Ea, is_complete_expected. cbn [negb].
+      right. split; [|rewrite Esl, app_length; lia].
+      rewrite Ea, is_complete_expected. cbn [negb].
       change (http_handler_protocol (expected m1 l)) with (http_handler_protocol (rq0 m1)).
       rewrite first_proto, has_proxy_c.
       unfold proxy_on_request_complete.
@@ -636,28 +778,8 @@ Section Forward.
         split; [cbn [app]; rewrite <- E'; reflexivity|]. split; [discriminate|exact C'].
   Qed.
 
-  (* schedules of the theorem: non-empty client segments, non-empty data from connection 0 — but
-     not before the client has sent [need] more bytes (an origin cannot speak on a connection that
-     has not been opened) —, flushes; nobody closes *)
-  Fixpoint sched_ok (need : nat) (evs : list event) : Prop :=
-    match evs with
-    | [] => True
-    | EClient seg :: t => seg <> [] /\ sched_ok (need - length seg) t
-    | EUp k raw :: t => need = O /\ k = O /\ raw <> [] /\ sched_ok need t
-    | EFlush :: t => sched_ok need t
-    | _ :: _ => False
-    end.
-
-  (* what connection 0 emits, piece by piece *)
-  Fixpoint ups (evs : list event) : list bytes :=
-    match evs with
-    | [] => []
-    | EUp O raw :: t => raw :: ups t
-    | _ :: t => ups t
-    end.
-
   Definition FInv (s : hstate) (rest : bytes) (relayed : list bytes) (need : nat) : Prop :=
-    (PhaseA s rest need /\ relayed = []) \/ PhaseB s rest relayed.
+    (PhaseA s rest need /\ relayed = []) \/ (PhaseB s rest relayed /\ need = O).
 
   Lemma forward_run : forall evs s rest relayed need,
     FInv s rest relayed need -> sched_ok need evs -> client_bytes evs = rest ->
@@ -668,21 +790,21 @@ Section Forward.
     - unfold run. cbn [fold_left]. fold (run c (step c s ev) t).
       destruct ev as [seg| |k raw|k|]; cbn [sched_ok] in S; try contradiction.
       + destruct S as (Hs & S). cbn [client_bytes] in E. subst rest. cbn [ups].
-        destruct I as [(A & ->)|B].
+        destruct I as [(A & ->)|(B & ->)].
         * destruct (phaseA_client s seg (client_bytes t) need A Hs) as [A'|B'].
           -- apply (IH _ (client_bytes t) [] (need - length seg)%nat); [left; auto|exact S|reflexivity].
           -- apply (IH _ (client_bytes t) [] (need - length seg)%nat); [right; exact B'|exact S|reflexivity].
-        * apply (IH _ (client_bytes t) relayed (need - length seg)%nat); [right; apply phaseB_client; assumption|exact S|reflexivity].
+        * apply (IH _ (client_bytes t) relayed (0 - length seg)%nat); [right; split; [apply phaseB_client; assumption|reflexivity]|exact S|reflexivity].
       + destruct S as (Hn & -> & Hr & S). cbn [client_bytes] in E. cbn [ups].
-        destruct I as [(A & ->)|B].
+        destruct I as [(A & ->)|(B & _)].
         * exfalso. destruct A as (p & r & ds & _ & (Hne & _) & _ & Hl). subst need.
           destruct r; [contradiction|discriminate].
         * replace (relayed ++ raw :: ups t) with ((relayed ++ [raw]) ++ ups t) by (rewrite <- app_assoc; reflexivity).
-          apply (IH _ rest (relayed ++ [raw]) need); [right; apply phaseB_up; assumption|exact S|exact E].
+          apply (IH _ rest (relayed ++ [raw]) need); [right; split; [apply phaseB_up; assumption|exact Hn]|exact S|exact E].
       + cbn [client_bytes] in E. cbn [ups].
-        destruct I as [(A & ->)|B].
+        destruct I as [(A & ->)|(B & Hn)].
         * rewrite (phaseA_flush s rest need A). apply (IH _ rest [] need); [left; auto|exact S|exact E].
-        * apply (IH _ rest relayed need); [right; apply phaseB_flush; exact B|exact S|exact E].
+        * apply (IH _ rest relayed need); [right; split; [apply phaseB_flush; exact B|exact Hn]|exact S|exact E].
   Qed.
 
   (* THE FORWARD PROXY, every packing, every interleaving: each request is forwarded exactly once,
@@ -693,22 +815,71 @@ Section Forward.
     let s := run c (init ds) evs in
     stat s = Alive /\ pipeline_request s = None /\ pending_request s = false /\ connect_log s = [(h, pt)] /\
     (exists n, conns s = [mkUp h pt (map (fwd c) (m1 :: ms)) n false]) /\
-    client_q s = ups evs.
+    client_q s = ups evs /\ registered s O = true.
   Proof.
     intros S E. cbv zeta.
     assert (I0 : FInv (init ds) (concat (map render (m1 :: ms))) [] (length (render m1))).
     { left. split; [|reflexivity]. exists (new_parser REQUEST_PARSER), (render m1), ds.
       split; [reflexivity|]. split; [|split; reflexivity].
       pose proof class_all as F. inversion F as [|? ? (Hm & Hq & _) _]. apply Pending_new; assumption. }
-    destruct (forward_run evs _ _ _ _ I0 S E) as (need' & [(A & _)|B]).
+    destruct (forward_run evs _ _ _ _ I0 S E) as (need' & [(A & _)|(B & _)]).
     - exfalso. destruct A as (p & r & ds' & _ & (Hne & _) & Er & _). symmetry in Er. apply app_eq_nil in Er. tauto.
     - destruct B as (rqX & po & n & ds' & done & todo & -> & Hc & Ht & Ed & Hd & C).
       apply Carry_end in C. destruct C as (-> & ->). rewrite app_nil_r in Ed. subst done.
-      cbn [app]. unfold pstate, connect_log, pending_request. cbn [stat pipeline_request plugin conns map up_host up_port client_q].
+      cbn [app]. unfold pstate, connect_log, pending_request, registered.
+      cbn [stat pipeline_request plugin conns map up_host up_port client_q upstream conn_closed nth_error up_closed Nat.eqb negb andb].
       repeat split. exists n. reflexivity.
   Qed.
-End Forward.
 
+
+  (* "a socket is only readable once it exists" implies the model-independent schedule condition *)
+  Lemma quiet_sched : forall evs s rest relayed need,
+    FInv s rest relayed need -> quiet c s evs -> client_bytes evs = rest -> sched_ok need evs.
+  Proof.
+    induction evs as [|ev t IH]; intros s rest relayed need I Q E; [exact Logic.I|].
+    cbn [quiet] in Q. destruct Q as (Qe & Q).
+    destruct ev as [seg| |k raw|k|]; try contradiction; cbn [sched_ok client_bytes] in *.
+    - split; [exact Qe|]. subst rest. destruct I as [(A & ->)|(B & ->)].
+      + destruct (phaseA_client s seg (client_bytes t) need A Qe) as [A'|B'].
+        * apply (IH _ (client_bytes t) [] _ (or_introl (conj A' eq_refl)) Q eq_refl).
+        * apply (IH _ (client_bytes t) [] _ (or_intror B') Q eq_refl).
+      + apply (IH _ (client_bytes t) relayed _ (or_intror (conj (phaseB_client s seg _ relayed B Qe) eq_refl)) Q eq_refl).
+    - destruct Qe as (Hr & Hk). destruct I as [(A & ->)|(B & Hn)].
+      + exfalso. destruct A as (p & r & ds & -> & _). cbn in Hk. lia.
+      + pose proof B as (rqX & po & n & ds & done & todo & -> & _). cbn in Hk.
+        assert (k = O) by lia. subst k. split; [exact Hn|]. split; [reflexivity|]. split; [exact Hr|].
+        apply (IH _ rest (relayed ++ [raw]) need (or_intror (conj (phaseB_up _ raw rest relayed B Hr) Hn)) Q E).
+    - destruct I as [(A & ->)|(B & Hn)].
+      + rewrite (phaseA_flush s rest need A) in Q. apply (IH _ rest [] need (or_introl (conj A eq_refl)) Q E).
+      + apply (IH _ rest relayed need (or_intror (conj (phaseB_flush s rest relayed B) Hn)) Q E).
+  Qed.
+
+  Hypothesis proto_all : Forall (fun m => http_handler_protocol (rq0 m) = HTTP_PROXY) (m1 :: ms).
+
+  Lemma fwd_expected_answer answers m : In m (m1 :: ms) -> expected_answer c answers m = answers h pt (fwd c m).
+  Proof.
+    intros Hin. pose proof class_all as F. rewrite Forall_forall in F. destruct (F m Hin) as (_ & _ & _ & _ & Ho & (x & Hx)).
+    pose proof proto_all as P. rewrite Forall_forall in P. specialize (P m Hin).
+    unfold expected_answer, names. rewrite P, has_proxy_c, Ho, Hx. unfold fwd. rewrite Hx. reflexivity.
+  Qed.
+
+  (* the class is an instance of the full statement *)
+  Theorem forward_holds : C04_holds c (m1 :: ms).
+  Proof.
+    intros answers ds evs Q E. cbv zeta. intros Hset Hans.
+    assert (I0 : FInv (init ds) (concat (map render (m1 :: ms))) [] (length (render m1))).
+    { left. split; [|reflexivity]. exists (new_parser REQUEST_PARSER), (render m1), ds.
+      split; [reflexivity|]. split; [|split; reflexivity].
+      pose proof class_all as F. inversion F as [|? ? (Hm & Hq & _) _]. apply Pending_new; assumption. }
+    pose proof (quiet_sched evs _ _ _ _ I0 Q E) as S.
+    destruct (forward_partial ds evs S E) as (H1 & H2 & H3 & H4 & (n & H5) & H6 & H7).
+    split; [exact H1|]. split; [exact H3|].
+    unfold client_stream. rewrite H6, concat_ups.
+    rewrite (Hans O _ ltac:(rewrite H5; reflexivity)).
+    pose proof (Hset O _ H7 ltac:(rewrite H5; reflexivity)) as Hn. cbn [up_nsent up_queued] in Hn.
+    cbn [up_host up_port up_nsent up_queued]. rewrite Hn, firstn_all, map_map. f_equal. apply map_ext_in. intros m Hin. symmetry. apply fwd_expected_answer, Hin.
+  Qed.
+End Forward.
 (* ======================================================================================
    3c. the web server (a local route plugin)
    ====================================================================================== *)
@@ -727,13 +898,9 @@ Section Web.
                   up_host up_port up_queued up_nsent up_closed];
              cbn [app length].
 
-  (* the route a request names: what _try_route finds for its path *)
-  Definition route_of (p : parser) : result (option nat) :=
-    try_route c (if truthy (path p) then or_empty (path p) else [SLASH]).
-
   Definition web_class (m : message) : Prop :=
     message_ok AL m /\ is_req m /\ no_upgrade m /\
-    is_http_1_1_keep_alive (rq0 m) = true /\ route_of (rq0 m) = Ok (Some j).
+    is_http_1_1_keep_alive (rq0 m) = true /\ route_of c (rq0 m) = Ok (Some j).
 
   Definition resp (m : message) : list bytes := respond (rq0 m).
   Definition web_okm (m : message) : Prop := is_http_1_1_keep_alive (rq0 m) = true.
@@ -852,7 +1019,7 @@ Section Web.
     unfold handle_data, handle_data_try. cbn [request].
     assert (NCp : is_complete p = false) by (apply not_complete_false; destruct Pd as (_ & _ & H & _); exact H).
     rewrite NCp. cbn [negb]. unfold parse_first_request. cbn [request].
-    destruct (pending_split p m1 r seg rest _ Hu Pd St) as [(p' & r' & Ea & Pd' & Er & Err)|(l & Ea & Er)].
+    destruct (pending_split p m1 r seg rest _ Hu Pd St) as [(p' & r' & Ea & Pd' & Er & Err)|(l & Ea & Er & Esl)].
     - rewrite Ea. pose proof Pd' as (_ & _ & NC' & _). rewrite (not_complete_false p' NC'). cbn [negb].
       hn. left. exists p', r', ds. split; [reflexivity|]. split; [exact Pd'|exact Er].
     - right. rewrite Ea, is_complete_expected. cbn [negb].
@@ -862,7 +1029,7 @@ Section Web.
       assert (WS : is_websocket_upgrade (expected m1 l) = false).
       { unfold is_websocket_upgrade. rewrite (upgrade_false _ (expected_no_upgrade m1 l Hu)). reflexivity. }
       rewrite WS.
-      change (path (expected m1 l)) with (path (rq0 m1)). fold (route_of (rq0 m1)). rewrite Hro.
+      change (path (expected m1 l)) with (path (rq0 m1)). fold (route_of c (rq0 m1)). rewrite Hro.
       unfold web_handle_request. rewrite plugin_j. hn.
       assert (CF : is_complete (expected m1 l) = true) by apply is_complete_expected.
       assert (KF : is_http_1_1_keep_alive (expected m1 l) = true) by exact Hk.
@@ -926,4 +1093,296 @@ Section Web.
       apply Carry_end in C. destruct C as (-> & ->). rewrite app_nil_r in Ed. subst done.
       unfold wstate, pending_request. cbn [stat pipeline_request plugin conns client_q]. repeat split.
   Qed.
+
+  Lemma quiet_wsched : forall evs s, quiet c s evs -> wsched_ok evs.
+  Proof.
+    induction evs as [|ev t IH]; intros s Q; [exact Logic.I|]. cbn [quiet] in Q. destruct Q as (Qe & Q).
+    destruct ev; cbn [wsched_ok]; try contradiction; try (apply (IH _ Q)). split; [exact Qe|apply (IH _ Q)].
+  Qed.
+
+  Hypothesis proto_all : Forall (fun m => http_handler_protocol (rq0 m) = WEB_SERVER) (m1 :: ms).
+
+  Lemma web_expected_answer answers m : In m (m1 :: ms) -> expected_answer c answers m = concat (resp m).
+  Proof.
+    intros Hin. pose proof class_all as F. rewrite Forall_forall in F. destruct (F m Hin) as (_ & _ & _ & _ & Hro).
+    pose proof proto_all as P. rewrite Forall_forall in P. specialize (P m Hin).
+    unfold expected_answer, names. rewrite P, has_web_c, Hro, plugin_j, plugin_j. reflexivity.
+  Qed.
+
+  (* the class is an instance of the full statement *)
+  Theorem web_holds : C04_holds c (m1 :: ms).
+  Proof.
+    intros answers ds evs Q E. cbv zeta. intros _ _.
+    destruct (web_partial ds evs (quiet_wsched evs _ Q) E) as (H1 & H2 & H3 & H4 & H5).
+    split; [exact H1|]. split; [exact H3|].
+    unfold client_stream. rewrite H5. generalize (m1 :: ms) (web_expected_answer answers).
+    intros l Hl. induction l as [|m t IH]; [reflexivity|]. cbn [map concat]. rewrite concat_app.
+    rewrite (Hl m (or_introl eq_refl)). f_equal. apply IH. intros m' Hin. apply Hl. right. exact Hin.
+  Qed.
 End Web.
+
+(* ======================================================================================
+   5. decidable versions of the hypotheses of C04_holds (for the concrete witnesses)
+   ====================================================================================== *)
+Fixpoint all_conns (P : nat -> upconn -> bool) (k : nat) (l : list upconn) : bool :=
+  match l with [] => true | u :: t => P k u && all_conns P (S k) t end.
+
+Lemma all_conns_sound P : forall l k0, all_conns P k0 l = true ->
+  forall k u, nth_error l k = Some u -> P (k0 + k)%nat u = true.
+Proof.
+  induction l as [|x t IH]; intros k0 H k u E; [destruct k; discriminate|].
+  cbn [all_conns] in H. apply andb_true_iff in H. destruct H as (H1 & H2). destruct k as [|k]; cbn [nth_error] in E.
+  - inversion E; subst. rewrite Nat.add_0_r. exact H1.
+  - rewrite <- plus_n_Sm. apply (IH (S k0) H2 k u E).
+Qed.
+
+Definition settledb (s : hstate) : bool :=
+  all_conns (fun k u => negb (registered s k) || Nat.eqb (up_nsent u) (length (up_queued u))) O (conns s).
+
+Lemma settledb_sound s : settledb s = true -> settled s.
+Proof.
+  intros H k u R E. pose proof (all_conns_sound _ _ _ H k u E) as X. cbn [plus] in X.
+  rewrite R in X. cbn [negb orb] in X. apply Nat.eqb_eq. exact X.
+Qed.
+
+Definition origins_answerb (answers : world) (evs : list event) (s : hstate) : bool :=
+  all_conns (fun k u => bytes_eqb (up_bytes k evs)
+                          (concat (map (answers (up_host u) (up_port u)) (firstn (up_nsent u) (up_queued u))))) O (conns s).
+
+Lemma origins_answerb_sound answers evs s : origins_answerb answers evs s = true -> origins_answer answers evs s.
+Proof.
+  intros H k u E. pose proof (all_conns_sound _ _ _ H k u E) as X. cbn [plus] in X. apply bytes_eqb_eq. exact X.
+Qed.
+
+Fixpoint quietb (c : cfg) (s : hstate) (evs : list event) : bool :=
+  match evs with
+  | [] => true
+  | ev :: t =>
+      match ev with
+      | EClient seg => nz seg
+      | EUp k raw => nz raw && Nat.ltb k (length (conns s))
+      | EFlush => true
+      | EClientEof | EUpEof _ => false
+      end && quietb c (step c s ev) t
+  end.
+
+Lemma quietb_sound c : forall evs s, quietb c s evs = true -> quiet c s evs.
+Proof.
+  induction evs as [|ev t IH]; intros s H; [exact I|]. cbn [quietb] in H. apply andb_true_iff in H.
+  destruct H as (H1 & H2). cbn [quiet]. split; [|apply IH, H2].
+  destruct ev as [seg| |k raw|k|]; try discriminate; try exact I.
+  - apply nz_true. exact H1.
+  - apply andb_true_iff in H1. destruct H1 as (A & B). split; [apply nz_true, A|apply Nat.ltb_lt, B].
+Qed.
+
+(* no header is called Upgrade, decidably *)
+Definition no_upgradeb (m : message) : bool :=
+  forallb (fun nv : hdr => negb (bytes_eqb (lower (fst nv)) L_UPGRADE)) (all_hdrs m).
+
+Lemma no_upgradeb_sound m : no_upgradeb m = true -> no_upgrade m.
+Proof.
+  unfold no_upgradeb, no_upgrade. rewrite forallb_forall, Forall_forall. intros H nv Hin E.
+  specialize (H nv Hin). rewrite E, bytes_eqb_refl in H. discriminate.
+Qed.
+
+Ltac msg_ok_tac :=
+  unfold message_ok; cbn [m_start m_hs1 m_framing m_hs2 start_ok framing_ok];
+  split; [|split; [|split]];
+  [ unfold tok; repeat split; try (apply mem_byte_false; vm_compute; reflexivity)
+  | repeat constructor; (apply other_ok_dec; [apply hdr_ok_dec|..]; vm_compute; reflexivity)
+  | try exact I
+  | repeat constructor; (apply other_ok_dec; [apply hdr_ok_dec|..]; vm_compute; reflexivity) ].
+
+(* ======================================================================================
+   6. concrete conversations: the witnesses that refute C04_statement outside the proved class,
+      and a non-trivial conversation inside it
+   ====================================================================================== *)
+Definition no_url : url :=
+  {| u_scheme := None; u_username := None; u_password := None; u_hostname := None; u_port := None; u_remainder := None |}.
+Definition url_of (target : bytes) : url :=
+  match from_bytes AL target with Ok u => u | Err _ => no_url end.
+
+Definition mk_req (method target : bytes) (hs1 : list hdr) (f : framing) : message :=
+  {| m_start := ReqLine method target (bs "HTTP/1.1") (url_of target); m_hs1 := hs1; m_framing := f; m_hs2 := [] |}.
+
+(* a world whose answers say which origin produced them and for how many request bytes *)
+Definition tag_world : world := fun h pt b =>
+  bs "HTTP/1.1 200 OK" ++ CRLF ++ bs "X-Host: " ++ h ++ [COLON] ++ dec_of_Z pt ++ CRLF ++
+  bs "X-Len: " ++ dec_of_N (len b) ++ CRLF ++ bs "Content-Length: 0" ++ CRLF ++ CRLF.
+
+Definition w_via := bs "1.1 proxy.py v2.4.0".
+Definition w_ack := bs "HTTP/1.1 200 Connection established" ++ CRLF ++ CRLF.
+Definition w_bad := bs "HTTP/1.1 400 Bad Request" ++ CRLF ++ CRLF.
+Definition w_nf := bs "HTTP/1.1 404 NOT FOUND" ++ CRLF ++ CRLF.
+
+(* (b) forward proxy, second request names another origin *)
+Definition cc_forward : ccfg := mkCC w_via [] w_ack w_bad w_nf true false false false [] [].
+Definition req_a1 := mk_req (bs "GET") (bs "http://a.com/1") [(bs "Host", bs "a.com")] FNone.
+Definition req_bx := mk_req (bs "GET") (bs "http://b.com/x") [(bs "Host", bs "b.com")] FNone.
+
+Ltac wf_req_tac :=
+  split; [msg_ok_tac|]; split; [reflexivity|]; split; [apply no_upgradeb_sound; vm_compute; reflexivity|];
+  split; [vm_compute; reflexivity|]; split; [vm_compute; reflexivity|]; vm_compute; discriminate.
+
+Lemma wf_other_origin : wf_conversation (cfg_of cc_forward) [req_a1; req_bx].
+Proof.
+  cbn [wf_conversation]. split.
+  - apply Forall_cons; [wf_req_tac|apply Forall_cons; [wf_req_tac|apply Forall_nil]].
+  - apply Forall_cons; [reflexivity|apply Forall_cons; [vm_compute; reflexivity|apply Forall_nil]].
+Qed.
+
+(* how a concrete run refutes C04_holds: all hypotheses hold (decidably) and the client's stream is
+   not the expected one *)
+Lemma refute_by_run (c : cfg) reqs (answers : world) ds evs :
+  quietb c (init ds) evs = true ->
+  bytes_eqb (client_bytes evs) (concat (map render reqs)) = true ->
+  settledb (run c (init ds) evs) = true ->
+  origins_answerb answers evs (run c (init ds) evs) = true ->
+  bytes_eqb (client_stream (run c (init ds) evs)) (concat (map (expected_answer c answers) reqs)) = false ->
+  ~ C04_holds c reqs.
+Proof.
+  intros Q E S O X H.
+  destruct (H answers ds evs (quietb_sound _ _ _ Q) (proj1 (bytes_eqb_eq _ _) E)
+              (settledb_sound _ S) (origins_answerb_sound _ _ _ O)) as (_ & _ & Hc).
+  rewrite Hc, bytes_eqb_refl in X. discriminate.
+Qed.
+
+(* both requests in their own segment; the one upstream connection (to a.com) answers both *)
+Definition evs_other_origin : list event :=
+  let c := cfg_of cc_forward in
+  [ EClient (render req_a1); EClient (render req_bx); EFlush;
+    EUp O (tag_world (bs "a.com") 80%Z (fwd c req_a1));
+    EUp O (tag_world (bs "a.com") 80%Z
+             (match snd (rebuild_for_upstream c false (rq0 req_bx)) with Ok x => x | Err _ => [] end)) ].
+
+Theorem other_origin_refuted : ~ C04_holds (cfg_of cc_forward) [req_a1; req_bx].
+Proof.
+  apply (refute_by_run _ _ tag_world [] evs_other_origin); vm_compute; reflexivity.
+Qed.
+
+(* what happens instead: one connection, to the FIRST origin, gets both requests *)
+Lemma other_origin_behaviour :
+  let s := run (cfg_of cc_forward) (init []) evs_other_origin in
+  connect_log s = [(bs "a.com", 80%Z)] /\ length (up_queued (nth O (conns s) (mkUp [] 0 [] O true))) = 2%nat /\
+  names (cfg_of cc_forward) req_bx = TOrigin (bs "b.com") 80%Z (fwd (cfg_of cc_forward) req_bx).
+Proof. vm_compute. repeat split. Qed.
+
+(* (c) web server, two local plugins; the second request names the route of the other plugin *)
+Definition cc_web : ccfg :=
+  mkCC w_via [] w_ack w_bad w_nf true true false false [(bs "/a", O); (bs "/b", 1%nat)] [CLocal (bs "PlugA"); CLocal (bs "PlugB")].
+Definition req_wa := mk_req (bs "GET") (bs "/a1") [(bs "Host", bs "me")] FNone.
+Definition req_wb := mk_req (bs "GET") (bs "/b1") [(bs "Host", bs "me")] FNone.
+
+Lemma wf_web_route : wf_conversation (cfg_of cc_web) [req_wa; req_wb].
+Proof.
+  cbn [wf_conversation]. split.
+  - apply Forall_cons; [wf_req_tac|apply Forall_cons; [wf_req_tac|apply Forall_nil]].
+  - apply Forall_cons; [reflexivity|apply Forall_cons; [vm_compute; reflexivity|apply Forall_nil]].
+Qed.
+
+Definition evs_web_route : list event := [ EClient (render req_wa); EFlush; EClient (render req_wb); EFlush ].
+
+Theorem web_route_refuted : ~ C04_holds (cfg_of cc_web) [req_wa; req_wb].
+Proof.
+  apply (refute_by_run _ _ tag_world [] evs_web_route); vm_compute; reflexivity.
+Qed.
+
+(* what happens instead: PlugA, the route of the first request, answers the request naming PlugB *)
+Lemma web_route_behaviour :
+  client_q (run (cfg_of cc_web) (init []) evs_web_route) = tag_respond (bs "PlugA") (rq0 req_wa) ++ tag_respond (bs "PlugA") (rq0 req_wb) /\
+  names (cfg_of cc_web) req_wb = TLocal 1%nat.
+Proof. vm_compute. split; reflexivity. Qed.
+
+(* (d) reverse proxy, two keep-alive requests for the same route; the second arrives before the
+   first upstream has answered *)
+Definition cc_reverse : ccfg :=
+  mkCC w_via [] w_ack w_bad w_nf true true false false [(bs "/x", O)]
+       [CReverse [[(bs "/x", [bs "http://up-x.example:8001/base"])]]].
+Definition req_x1 := mk_req (bs "GET") (bs "/x1") [(bs "Host", bs "me")] FNone.
+Definition req_x2 := mk_req (bs "GET") (bs "/x2") [(bs "Host", bs "me")] FNone.
+
+Lemma wf_reverse_followup : wf_conversation (cfg_of cc_reverse) [req_x1; req_x2].
+Proof.
+  cbn [wf_conversation]. split.
+  - apply Forall_cons; [wf_req_tac|apply Forall_cons; [wf_req_tac|apply Forall_nil]].
+  - apply Forall_cons; [reflexivity|apply Forall_cons; [vm_compute; reflexivity|apply Forall_nil]].
+Qed.
+
+Definition sent_of (c : cfg) (m : message) : bytes := match names c m with TOrigin _ _ b => b | _ => [] end.
+
+Definition evs_reverse_followup : list event :=
+  let c := cfg_of cc_reverse in
+  [ EClient (render req_x1); EFlush; EClient (render req_x2); EFlush;
+    EUp O (tag_world (bs "up-x.example") 8001%Z (sent_of c req_x1));
+    EUp 1%nat (tag_world (bs "up-x.example") 8001%Z (sent_of c req_x2)) ].
+
+Theorem reverse_followup_refuted : ~ C04_holds (cfg_of cc_reverse) [req_x1; req_x2].
+Proof.
+  apply (refute_by_run _ _ tag_world [] evs_reverse_followup); vm_compute; reflexivity.
+Qed.
+
+(* what happens instead: a second connection replaces the first, whose answer is never read; the
+   client receives one response for two requests *)
+Lemma reverse_followup_behaviour :
+  let c := cfg_of cc_reverse in
+  let s := run c (init []) evs_reverse_followup in
+  connect_log s = [(bs "up-x.example", 8001%Z); (bs "up-x.example", 8001%Z)] /\
+  upstream s = Some 1%nat /\
+  client_stream s = tag_world (bs "up-x.example") 8001%Z (sent_of c req_x2).
+Proof. vm_compute. repeat split. Qed.
+
+(* the same conversation with both requests in ONE segment: the first request is queued on a
+   connection that is replaced before it is ever flushed — its origin never sees it *)
+Lemma reverse_followup_one_segment :
+  let c := cfg_of cc_reverse in
+  let s := run c (init []) [EClient (render req_x1 ++ render req_x2); EFlush] in
+  map up_stream (conns s) = [[]; sent_of c req_x2] /\ map up_all (conns s) = [sent_of c req_x1; sent_of c req_x2].
+Proof. vm_compute. split; reflexivity. Qed.
+
+Theorem statement_refuted : ~ C04_statement.
+Proof. intros H. exact (other_origin_refuted (H _ _ wf_other_origin)). Qed.
+
+(* ---- inside the proved class: three requests to one origin — a GET, a chunked POST (three
+   chunks with extensions and a trailer), a POST with Content-Length — sent as [1 1/2 requests]
+   [the rest], the origin answering in two bursts ---- *)
+Definition req_a2 := mk_req (bs "POST") (bs "http://a.com/up?x=1") [(bs "Host", bs "a.com"); (bs "Proxy-Connection", bs "keep-alive")]
+                            (FChunked (bs "Transfer-Encoding") (bs "chunked") example_stream).
+Definition req_a3 := mk_req (bs "POST") (bs "http://a.com/3") [(bs "Host", bs "a.com")]
+                            (FLength (bs "Content-Length") (bs "5") (bs "hello")).
+Definition reqs3 := [req_a1; req_a2; req_a3].
+Definition stream3 : bytes := concat (map render reqs3).
+Definition cut3 : nat := (length (render req_a1) + length (render req_a2) / 2)%nat.
+Definition evs3 : list event :=
+  let c := cfg_of cc_forward in
+  let ans m := tag_world (bs "a.com") 80%Z (fwd c m) in
+  [ EClient (firstn cut3 stream3); EFlush; EUp O (ans req_a1);
+    EClient (skipn cut3 stream3); EFlush; EUp O (ans req_a2 ++ firstn 10 (ans req_a3)); EUp O (skipn 10 (ans req_a3)) ].
+
+Lemma reqs3_class : Forall (fwd_class (cfg_of cc_forward) (bs "a.com") 80%Z) reqs3.
+Proof.
+  assert (T : forall m, message_ok AL m -> is_req m -> no_upgradeb m = true ->
+                        is_https_tunnel (rq0 m) = false -> origin_of (rq0 m) = Some (bs "a.com", 80%Z) ->
+                        (exists x, fwd_bytes (cfg_of cc_forward) m = Ok x) -> fwd_class (cfg_of cc_forward) (bs "a.com") 80%Z m).
+  { intros m A B C D E F. exact (conj A (conj B (conj (no_upgradeb_sound m C) (conj D (conj E F))))). }
+  apply Forall_cons; [|apply Forall_cons; [|apply Forall_cons; [|apply Forall_nil]]]; apply T;
+    try (vm_compute; reflexivity); try (eexists; vm_compute; reflexivity).
+  - msg_ok_tac.
+  - msg_ok_tac. split; [apply hdr_ok_dec; vm_compute; reflexivity|]. split; [vm_compute; reflexivity|].
+    split; [vm_compute; reflexivity|apply example_stream_ok].
+  - msg_ok_tac. split; [apply hdr_ok_dec; vm_compute; reflexivity|]. split; vm_compute; reflexivity.
+Qed.
+
+Lemma nonvacuous_run :
+  let c := cfg_of cc_forward in
+  sched_ok (length (render req_a1)) evs3 /\ client_bytes evs3 = stream3 /\
+  (length (render req_a1) < cut3 < length (render req_a1) + length (render req_a2))%nat /\
+  let s := run c (init []) evs3 in
+  map up_queued (conns s) = [map (fwd c) reqs3] /\
+  client_stream s = concat (map (expected_answer c tag_world) reqs3) /\
+  stat s = Alive /\ pending_request s = false.
+Proof.
+  cbv zeta. split.
+  - cbn [sched_ok evs3]. repeat split; try (vm_compute; discriminate); vm_compute; reflexivity.
+  - split; [vm_compute; reflexivity|]. split; [vm_compute; split; repeat constructor|].
+    vm_compute. repeat split.
+Qed.
